@@ -41,7 +41,13 @@ def payload(draw, max_sigs=12, allow_big=False, min_sigs=1, allow_medium=False, 
 	n = len(sigs)
 	idkind = draw(st.sampled_from(['none', 'str', 'none', 'i8', 'u8', 'str', 'none']))
 	if idkind == 'str':
-		ids = draw(st.lists(ID_TEXT, min_size=n, max_size=n, unique=True))
+		if draw(st.integers(0, 5)) == 5:
+			# string IDs that all look like numbers (accession / sample numbers with leading zeros, blanks, signs, underscores)
+			num = st.one_of(st.integers(0, 99999).map(lambda v: f'{v:05d}'), st.integers(0, 10 ** 6).map(str), st.integers(0, 999).map(lambda v: f' {v} '),
+			                st.integers(1, 999).map(lambda v: f'+{v}'), st.integers(1000, 99999).map(lambda v: f'{v // 1000}_{v % 1000:03d}'), st.integers(0, 99).map(lambda v: f'{v}.0'))
+			ids = draw(st.lists(num, min_size=n, max_size=n, unique=True))
+		else:
+			ids = draw(st.lists(ID_TEXT, min_size=n, max_size=n, unique=True))
 	elif idkind == 'i8':
 		ids = draw(st.lists(st.one_of(st.integers(-2 ** 63, 2 ** 63 - 1), st.integers(0, 1000)), min_size=n, max_size=n, unique=True))
 	elif idkind == 'u8':
